@@ -3,6 +3,7 @@
 use msi_verif_harness::codepage::codepage_cmd;
 use msi_verif_harness::column::column_cmd;
 use msi_verif_harness::expr::expr_cmd;
+use msi_verif_harness::package::pkg_cmd;
 use msi_verif_harness::pure::pure_cmd;
 use msi_verif_harness::state::State;
 use msi_verif_harness::sx::{parse, Sx};
@@ -25,7 +26,12 @@ fn dispatch(st: &mut State, cmd: &Sx) -> Sx {
     if let Some(o) = codepage_cmd(&name, args) {
         return o;
     }
-    let _ = st;
+    if name == "profile" {
+        return Sx::unit();
+    }
+    if let Some(o) = pkg_cmd(st, &name, args) {
+        return o;
+    }
     Sx::sym("badcmd")
 }
 
